@@ -630,7 +630,13 @@ class C20(Prop):
                 kterm.append(eval_pe(k, sym_inputs(len(k.data_operands())), [0] * k.switch_no.value.data, sym_sem))
             except Invalid:
                 kterm.append(None)
-        out = {"enc": enc, "kterm": kterm, "steps": []}
+        bterm = []
+        for b in bodies:  # reference semantics of the body itself (independent of encode)
+            try:
+                bterm.append(eval_body(b, sym_inputs(len(used_args(b))), sym_sem))
+            except (KeyError, IndexError):
+                bterm.append(None)
+        out = {"enc": enc, "kterm": kterm, "bterm": bterm, "steps": []}
         if len(ks) != len(bodies) or not ks:
             return out
         groups = case_groups(case)
